@@ -4,7 +4,8 @@
 From V Require Import Base Base_proofs CorrBase Config Config_proofs Corr_C14 Corr_C14_proofs.
 From Coq Require Import Permutation.
 
-Definition all_ok : oracle := MOr (fun _ => true) (fun _ => true) (fun _ => true).
+(* every string accepted; a from/to value s is read as http://s with host s (no ports or paths in the witnesses) *)
+Definition all_ok : oracle := MOr (fun _ => true) (fun _ => true) (fun _ => true) (fun s => (lit_http, s)) lit_http.
 
 Definition w_env : env :=
   ME (s_ "sso") []
@@ -43,9 +44,12 @@ Lemma cluster_drops_default_options :
             u_timeout u = zs 5.
 Proof. repeat split. eexists. vm_compute. repeat split. Qed.
 
+Definition w_tables : tables :=
+  MT lit_http [] [] [] [(s_ "foo.example.com", (lit_http, s_ "foo.example.com")); (s_ "foo.internal", (lit_http, s_ "foo.internal"))].
+
 (* the monitor attributes exactly this observation to known finding 1 *)
 Lemma witness_judged_known :
-  judge (CLoad w_env [] [] [] w_doc (to_obs (set_upstream_configs (oracle_of [] [] []) w_env w_doc))) = 101.
+  judge (CLoad w_env w_tables w_doc (to_obs (set_upstream_configs (oracle_of w_tables) w_env w_doc))) = 101.
 Proof. vm_compute. reflexivity. Qed.
 
 (* ---- the documented example (docs/sso_config.md) resolves as the docs describe ---- *)
@@ -65,7 +69,8 @@ Lemma docs_example_default_cluster :
   exists u, set_upstream_configs all_ok (docs_env (s_ "sso")) docs_doc = Ok [u] /\
     u_service u = s_ "example_service" /\
     u_from u = s_ "example-service.sso.sso.example.com" /\ u_to u = s_ "example-service.sso.example.com" /\
-    u_kind u = 0 /\ u_groups u = o_groups docs_opts /\ u_skip u = o_skip_auth_regex docs_opts /\
+    u_kind u = 0 /\ u_route u = [lit_http; s_ "example-service.sso.sso.example.com"; lit_http; s_ "example-service.sso.example.com"] /\
+    u_groups u = o_groups docs_opts /\ u_skip u = o_skip_auth_regex docs_opts /\
     u_header_overrides u = o_header_overrides docs_opts /\ u_inject_headers u = o_inject_headers docs_opts /\
     u_domains u = [s_ "env.example.com"] /\ u_timeout u = zs 10.
 Proof. eexists. vm_compute. repeat split. Qed.
